@@ -197,6 +197,49 @@ def always_throws(f):
     return not cfg.exit_blocks(('return',)) or not cfg.can_reach_exit(cfg.entry_pos())
 
 
+def membership_polarity(prog, f, depth=0):
+    """True: the function returns 'the value is an element', False: it returns the opposite, None: shape unknown.
+    Accepted shapes of the returned expression:  find( ...) != end() / != arr + n,  count( ...) != 0 / > 0,
+    !( ... == ...), any_of( ...), a call of another membership function (followed through the resolved callee)"""
+    rets = [n for n in f.walk() if n.get('k') == 'ReturnStmt' and children(n)]
+    if len(rets) != 1:
+        return None
+
+    def pol(e):
+        e = strip_all_casts(e)
+        while e.get('k') in ('ParenExpr', 'ExprWithCleanups', 'MaterializeTemporaryExpr', 'CXXBindTemporaryExpr') \
+                and children(e):
+            e = strip_all_casts(children(e)[0])
+        k = e.get('k')
+        if k == 'UnaryOperator' and e.get('op') == '!':
+            r = pol(children(e)[0])
+            return None if r is None else not r
+        op = e.get('op') if k in ('BinaryOperator', 'CXXOperatorCallExpr') else None
+        if op in ('!=', '==', '>'):
+            kids = call_args(e) if k == 'CXXOperatorCallExpr' else children(e)
+            if len(kids) != 2:
+                return None
+            names = [(x.get('callee') or '').split('::')[-1] for x in walk(kids[0]) if x.get('k') in CALL_KINDS]
+            if any(nm in ('find', 'find_if', 'lower_bound') for nm in names) and op in ('!=', '=='):
+                return op == '!='
+            if any(nm in ('count', 'count_if') for nm in names):
+                zero = strip_all_casts(kids[1]).get('val') == 0 or kids[1].get('cv') == 0
+                if zero:
+                    return op in ('!=', '>')
+            return None
+        if k in CALL_KINDS:
+            nm = (e.get('callee') or '').split('::')[-1]
+            if nm in ('any_of', 'binary_search'):
+                return True
+            if nm == 'none_of':
+                return False
+            g = prog.by_key.get(e.get('ckey'), [None])[0]
+            if g is not None and g.body is not None and depth < 3:
+                return membership_polarity(prog, g, depth + 1)
+        return None
+    return pol(children(rets[0])[0])
+
+
 def r2(chk, prog):
     adapters = {}
     for cn, c in prog.classes.items():
@@ -226,6 +269,39 @@ def r2(chk, prog):
                       'HasIterators agrees with contains() [%s]' % tag, meths['contains'].loc())
         chk.check(not (tr['IsSorted'] and tr['IsSortable']), 'R2', cn, 'an always-sorted container is not sortable [%s]'
                   % tag, '')
+        if 'contains' in meths and not always_throws(meths['contains']):
+            # 'unique data' drops / refuses a value exactly when it is already stored: contains() must answer
+            # 'is an element' (not its negation)
+            pol = membership_polarity(prog, meths['contains'])
+            if pol is None:
+                raise AnalysisBroken('contains() of %s has a shape this rule does not know' % cn)
+            chk.check(pol, 'R2', meths['contains'].name, 'contains() is true exactly for a stored value [%s]' % tag,
+                      meths['contains'].loc(), 'the returned expression is the negation of the membership test')
+        if 'sort' in meths and not always_throws(meths['sort']):
+            # 'sorting yields ascending order': the standard sort with its default (less-than) order
+            f = meths['sort']
+            sc = [c for c in f.calls() if (c.get('callee') or '').split('::')[-1].split('<')[0] in
+                  ('sort', 'stable_sort')]
+            if len(sc) != 1:
+                raise AnalysisBroken('sort() of %s does not consist of one sort call' % cn)
+            args = [a for a in call_args(sc[0]) if not a.get('defarg')]
+            free = not field_name(object_of(sc[0])) if object_of(sc[0]) is not None else True
+            extra = args[2:] if free else args
+            cmp_t = ' '.join((a.get('t') or '') for a in extra)
+            asc = not extra or 'std::less' in cmp_t
+            if extra and not asc and 'std::greater' not in cmp_t:
+                raise AnalysisBroken('sort() of %s uses a comparator this rule does not know: %s' % (cn, cmp_t))
+            whole = True
+            if free:
+                b = [(x.get('callee') or '').split('::')[-1] for a in args[:2] for x in walk(a)
+                     if x.get('k') in CALL_KINDS]
+                whole = 'begin' in b and 'end' in b and not any(
+                    (x.get('k') in ('BinaryOperator', 'CXXOperatorCallExpr') and x.get('op') in ('+', '-')) or
+                    (x.get('k') in CALL_KINDS and (x.get('callee') or '').split('::')[-1].split('<')[0] in
+                     ('next', 'prev', 'advance')) for a in args[:2] for x in walk(a))
+            chk.check(asc and whole and not f.cfg.must_pass_through(lambda n: n in sc), 'R2', f.name,
+                      'sort() sorts the whole container in ascending order [%s]' % tag, f.loc(),
+                      'comparator %s' % cmp_t if not asc else 'the range is not begin()..end()')
         if 'addValue' in meths:
             f = meths['addValue']
             ins = [c for c in f.calls() if field_name(object_of(c)) == 'mDestCont' and
